@@ -251,6 +251,8 @@ PROPS["C10"] = {
 PROPS["C16"] = {
     "theorems": [
         {"name": "C16_visit_seq", "status": "proved", "statement": "visit_seq N elems = Ok elems iff |elems| = N, else Err (every N, every sequence)"},
+        {"name": "C16_heap_visit_seq", "status": "proved", "statement": "forall size hints, element sequences: the HeapBytes / LockedBytes sequence deserialiser returns exactly the elements (no invented byte, no index panic)"},
+        {"name": "C16_heap_visit_bytes", "status": "proved", "statement": "the byte-string path of the heap deserialisers returns the bytes"},
         {"name": "C16_visit_bytes", "status": "proved", "statement": "visit_bytes N v = Ok v iff |v| = N, else Err"},
         {"name": "C16_secretbox_bytes_roundtrip", "status": "proved", "statement": "from_bytes (to_bytes (tag, data)) = Ok (tag, data), any payload"},
         {"name": "C16_box_bytes_roundtrip", "status": "proved", "statement": "same for the public-key box"},
@@ -259,14 +261,14 @@ PROPS["C16"] = {
         {"name": "C16_short_bytes_rejected", "status": "proved", "statement": "inputs shorter than the fixed overhead are rejected by every from_bytes"},
         {"name": "C16_example", "status": "proved", "statement": "non-vacuity by vm_compute"},
     ],
-    "builds": ["stable"],
+    "builds": ["stable", "nightly"],
     "rule": "for N in {8,16,24,32,64}: every element count 0..=2N as a JSON array (serde_json -> visit_seq) and as a bincode byte string (-> visit_bytes) and through TryFrom; objects DryocSecretBox, DryocBox (plain and sealed), SignedMessage with every payload length 0..=80 (thorough 300): "
             "to_bytes = libsodium layout, from_bytes / from_parts / JSON / bincode round trips reproduce an equal object that still decrypts / verifies; KeyPair, SigningKeyPair, kx Session, Kdf, PwHash round trips; fixed-length fields inside objects with one element dropped / added (JSON) or a 15 / 17-byte string (bincode); "
-            "visitor and from_bytes results compared with the extracted model (correspondence). Stack and Vec containers (heap / locked: nightly check C18/C14 family). non-trivial: all",
+            "visitor and from_bytes results compared with the extracted model (correspondence). Stack and Vec containers on the default build; on the nightly build additionally HeapBytes and LockedBytes (element counts 0..=17, 64, 4097; thorough 0..=70, 127..129, 4095..4097; JSON sequences, bincode byte strings, own round trips) and Locked<HeapByteArray<N>> for N in {24, 32} with every element count 0..=2N. non-trivial: all",
     "modelled": ["serde_json (arrays -> visit_seq, element by element) and bincode (length-prefixed bytes -> visit_bytes) are external: assumption validated by correspondence with the real crates",
                  "derived Serialize/Deserialize impls of the object types are exercised, not modelled"],
     "assumptions": [],
-    "partial": "HeapBytes / Locked containers (nightly) are not covered by this check",
+    "partial": "serde_json / bincode (which visitor method they call, which size hint they give) are assumptions validated by correspondence; objects held in heap / locked containers are covered through their byte containers, not object by object",
 }
 
 PROPS["C11"] = {
